@@ -122,7 +122,7 @@ theorem presV_linuxCheck_change : PresV (badChecked b) (linuxCheck .change) := b
 theorem presV_linuxProbe :
     PresV (badChecked b)
       (GetCmdOutput .probe (.lit "echo $?") ["echo $?"] ;;
-       .ite (.not (.flag .status0)) "s.conn.GetCmdOutput(\"echo $?\") != \"0\\n\""
+       .ite (.not (.flag .status0)) "$r.conn.GetCmdOutput(\"echo $?\") != \"0\\n\""
          (.abort ["%s failed (exit status)", "_"]) .skip) := by
   intro env s hj hm
   have h1 := getCmdOutput_spec (badChecked b) .probe (.lit "echo $?") ["echo $?"] env s hj hm
@@ -156,7 +156,7 @@ theorem saveContent_of_flag (r : Reply) (f : Flag)
 theorem presV_asaSave :
     PresV (badChecked b)
       (GetCmdOutput .save (.lit "write memory") ["write memory"] ;;
-       .ite (.not (.flag .okMark)) "!strings.Contains(out, \"[OK]\")"
+       .ite (.not (.flag .okMark)) "¬strings.Contains($GetCmdOutput, \"[OK]\")"
          (.abort ["Command 'write memory' failed, missing [OK] in output:\n%s", "_"]) .skip) := by
   intro env s hj hm
   have h1 := getCmdOutput_spec (badChecked b) .save (.lit "write memory") ["write memory"] env s hj hm
@@ -201,9 +201,9 @@ theorem issueCmd_spec (bad : Role → Reply → Bool) (ρ : Role) (t : Txt) (p :
 /-- IOS writeMem: what follows once the answer to `write memory` (or to the confirmation) is there -/
 theorem writeMem_tail (env : Env) (sX : St) (h : Pd (badChecked b) .save sX) (ha : promptArrives sX.last = true) :
     Jv (badChecked b) (exec (
-      .ite (.flag .okMark) "strings.Contains(out, \"[OK]\")" (.ret .none []) .skip ;;
-      .ite (.flag .openFailed) "strings.Contains(out, \"startup-config file open failed\")"
-        (.ite .ctrPos "retries > 0" (.decCtr ;; .cont) .skip ;;
+      .ite (.flag .okMark) "strings.Contains($IssueCmd, \"[OK]\")" (.ret .none []) .skip ;;
+      .ite (.flag .openFailed) "strings.Contains($IssueCmd, \"startup-config file open failed\")"
+        (.ite .ctrPos "$const > 0" (.decCtr ;; .cont) .skip ;;
          .abort ["write mem: startup-config open failed - giving up"]) .skip ;;
       .abort ["write mem: unexpected result: %s", "_"]) env sX) := by
   have hm1 := h.mode
@@ -224,11 +224,11 @@ theorem writeMem_tail (env : Env) (sX : St) (h : Pd (badChecked b) .save sX) (ha
 theorem presV_iosWriteMemRound :
     PresV (badChecked b) (
       IssueCmd .save (.lit "write memory") (.stdOr [.confirm]) ["write memory", "#[ ]?|\\[confirm\\]"] ;;
-      .ite (.flag .overwrite) "strings.Contains(out, \"Overwrite the previous NVRAM configuration\")"
+      .ite (.flag .overwrite) "strings.Contains($IssueCmd, \"Overwrite the previous NVRAM configuration\")"
         (GetCmdOutput .save (.lit "") [""]) .skip ;;
-      .ite (.flag .okMark) "strings.Contains(out, \"[OK]\")" (.ret .none []) .skip ;;
-      .ite (.flag .openFailed) "strings.Contains(out, \"startup-config file open failed\")"
-        (.ite .ctrPos "retries > 0" (.decCtr ;; .cont) .skip ;;
+      .ite (.flag .okMark) "strings.Contains($IssueCmd, \"[OK]\")" (.ret .none []) .skip ;;
+      .ite (.flag .openFailed) "strings.Contains($IssueCmd, \"startup-config file open failed\")"
+        (.ite .ctrPos "$const > 0" (.decCtr ;; .cont) .skip ;;
          .abort ["write mem: startup-config open failed - giving up"]) .skip ;;
       .abort ["write mem: unexpected result: %s", "_"]) := by
   intro env s hj hm
